@@ -20,9 +20,9 @@ CLAIMED = {
             "actions_postorder / parse_actions_postorder: for validated tables the logged action calls are exactly the post-order of the unique derivation tree with children in production order; sugar interpretation model (interp) is tied to compiled parsers (values of ?, *, +, *!, @list) on every run.",
             TB, "Lean 4 theorems over the LR machine + differential correspondence of action logs", "§7 C03"),
     "C04": ("proof",
-            "Decision logic of resolveConflicts proved for all action cells (only one-rule S/R pairs with explicit precedences are settled, exactly one action kept, verdict = some cell keeps more than one action); accepted tables are validated (no hidden conflict, no missing lookahead); verdict and automaton are compared with an independent LALR(1) reference on random and classic grammars.",
-            TB + " Exactness of the item sets (⊆: justify_sound / items_exact / tables_are_lalr, no_invented_conflict) is proved for accepted grammars and validated per emitted table (lr.justify); for REFUSED grammars the verdict rests on the comparison with the independent reference (a test).",
-            "Lean 4 theorems on the resolution logic + verified validator + reference LALR(1) construction", "§7 C04"),
+            "Decision logic of resolveConflicts proved for all action cells (only one-rule S/R pairs with explicit precedences are settled, exactly one action kept, verdict = some cell keeps more than one action); the ConstructLALR worklist is modelled in Lean and proved, for ALL grammars, to terminate without panicking and to return exactly the LALR(1) automaton by definition (construct_terminates / construct_sound / construct_complete / construct_correct / construct_order_irrelevant), the model being tied to the real ConstructLALR state by state on every run (family construct); every run of the real ConstructLALR, refused or accepted, is validated by the verified conflict checker (item sets closed, justified, kernels distinct, HasConflicts = verdict by definition: conflict_check_sound, verdict_exact); accepted tables are validated (no hidden conflict, no missing or invented lookahead); verdict and automaton are also compared with an independent LALR(1) reference on random and classic grammars.",
+            TB + " The reading of the grammar out of lr1.Grammar and the printing of the automaton are harness code; the Lean construct model corresponds to the Go worklist by differential runs, not by translation.",
+            "Lean 4 theorems on the resolution logic and on a model of ConstructLALR + verified validators + correspondence", "§7 C04"),
     "C05": ("proof",
             "op_machine_climb: a shift-reduce machine whose decisions follow the documented relation builds the precedence-climbing tree for all operator sequences; resolve_documented_partial: resolveConflicts yields that relation except for @right (known finding K1, negation proved on the calc cell). Compiled expression parsers over random operator tables are compared with precedence climbing; deviations are accepted only when explained by K1.",
             TB + " Partial: @right is a recorded known finding.",
